@@ -1012,7 +1012,7 @@ func c08extra(c *strict, w *sim.World, s *sim.Step) *Viol {
 }
 
 var C08 = register(&HistProp{ID: "C08",
-	Genesis: func(t *rapid.T) *sim.GenSpec { return sim.DrawGenesis(t, sim.GenOpts{BigBalances: true, MixedDenom: true, AbsentOpt: true, CaseLimits: true}) },
+	Genesis: func(t *rapid.T) *sim.GenSpec { return sim.DrawGenesis(t, sim.GenOpts{BigBalances: true, MixedDenom: true, AbsentOpt: true, CaseLimits: true, OddMessenger: true}) },
 	Next: func(g *sim.G, i int) *sim.Op {
 		return Mix{Dep: 14, Admin: 5, Ledger: 2, DepValid: 45, AdminHolder: 92, FaultPct: 6, Rollback: 5,
 			AdminTypes: []string{"SetMaxBurnAmountPerMessage", "SetMaxBurnAmountPerMessage", "UpdateMaxMessageBodySize", "AddRemoteTokenMessenger", "RemoveRemoteTokenMessenger",
